@@ -172,6 +172,14 @@ pub struct E2Scn {
     /// is only installed by the first `ReplaceFilterer`
     #[serde(default)]
     pub default_filterer_first: bool,
+    /// run-time changes are made the "advanced" way the documentation of `Config::signal_change` describes: the public
+    /// field is replaced (`config.pathset.replace(..)`, `config.file_watcher.replace(..)`, `config.throttle.replace(..)`,
+    /// `config.keyboard_events.replace(..)`) and `config.signal_change()` is called by hand, instead of the setter
+    #[serde(default)]
+    pub raw_changes: bool,
+    /// bare `config.signal_change()` calls (nothing changed) at these instants: every worker re-reads its configuration
+    #[serde(default)]
+    pub nudges: Vec<u64>,
 }
 
 impl Default for E2Scn {
@@ -203,6 +211,8 @@ impl Default for E2Scn {
             flip_ids: vec![],
             poll_scan_errors: vec![],
             default_filterer_first: false,
+            raw_changes: false,
+            nudges: vec![],
         }
     }
 }
@@ -384,22 +394,44 @@ fn apply_change(c: &Change) {
         l.cfg_no - 1
     });
     log(Ev::CfgChange { n, what: format!("{c:?}") });
+    let raw = lib(|l| l.scn.as_ref().map(|s| s.raw_changes).unwrap_or(false));
     match c {
         Change::Pathset(ps) => {
             let v: Vec<WatchedPath> = ps.iter().map(|(p, rec)| if *rec { WatchedPath::recursive(path_of(*p)) } else { WatchedPath::non_recursive(path_of(*p)) }).collect();
-            config.pathset(v);
+            if raw {
+                config.pathset.replace(v);
+                config.signal_change();
+            } else {
+                config.pathset(v);
+            }
         }
-        Change::FileWatcher(None) => {
-            config.file_watcher(WatcherKind::Native);
-        }
-        Change::FileWatcher(Some(ms)) => {
-            config.file_watcher(WatcherKind::Poll(Duration::from_millis(*ms)));
+        Change::FileWatcher(kind) => {
+            let k = match kind {
+                None => WatcherKind::Native,
+                Some(ms) => WatcherKind::Poll(Duration::from_millis(*ms)),
+            };
+            if raw {
+                config.file_watcher.replace(k);
+                config.signal_change();
+            } else {
+                config.file_watcher(k);
+            }
         }
         Change::KeyboardOff => {
-            config.keyboard_events(false);
+            if raw {
+                config.keyboard_events.replace(false);
+                config.signal_change();
+            } else {
+                config.keyboard_events(false);
+            }
         }
         Change::Throttle(ms) => {
-            config.throttle(throttle_of(*ms));
+            if raw {
+                config.throttle.replace(throttle_of(*ms));
+                config.signal_change();
+            } else {
+                config.throttle(throttle_of(*ms));
+            }
         }
         Change::ReplaceActionHandler => {
             let g = lib(|l| {
@@ -865,6 +897,28 @@ async fn e2_root(scn: E2Scn) {
                     sleep_ms(st.gap).await;
                 }
                 apply_change(&st.change);
+            }
+        }));
+    }
+    if !scn.nudges.is_empty() {
+        let mut at = scn.nudges.clone();
+        at.sort();
+        tasks.push(tokio::spawn(async move {
+            let mut now = 0;
+            for t in at {
+                if t > now {
+                    sleep_ms(t - now).await;
+                    now = t;
+                }
+                let config = lib(|l| l.config.clone());
+                if let Some(config) = config {
+                    let n = lib(|l| {
+                        l.cfg_no += 1;
+                        l.cfg_no - 1
+                    });
+                    log(Ev::CfgChange { n, what: "Nudge".into() });
+                    config.signal_change();
+                }
             }
         }));
     }
